@@ -1,9 +1,9 @@
 #!/bin/sh
-# findings/run_demo.sh <worktree-of-calamine> [demo-file] [test filter]
+# findings/run_demo.sh <worktree-of-calamine> [demo-file] [test filter] [cargo feature flags]
 # Copies a demo file into <worktree>/tests, runs it offline, removes it again.  Triage aid only.
 set -e
-WT="$1"; DEMO="${2:-$(dirname "$0")/demos/kf_demos.rs}"; FILTER="$3"
+WT="$1"; DEMO="${2:-$(dirname "$0")/demos/kf_demos.rs}"; FILTER="$3"; FEAT="$4"
 NAME="zz_$(basename "$DEMO" .rs)"
 cp "$DEMO" "$WT/tests/$NAME.rs"
 trap 'rm -f "$WT/tests/$NAME.rs"' EXIT
-cd "$WT" && CARGO_NET_OFFLINE=true cargo test --offline --test "$NAME" -- $FILTER 2>&1 | grep -E "^test |test result|error|panicked|warning: unused" | head -80
+cd "$WT" && CARGO_NET_OFFLINE=true cargo test --offline $FEAT --test "$NAME" -- $FILTER 2>&1 | grep -E "^test |test result|error|panicked|warning: unused" | head -80
